@@ -10,7 +10,7 @@ VARIABLES tid, l, prev, heard, heardL
 (* the implementation, whose lastResponseTime is only compared against it                                            *)
 Steps(t) == Traces[t].steps
 ToSet(q) == {q[k] : k \in 1..Len(q)}
-AllIds == {"a", "b", "c", "d", "e", "o1", "o2"}
+AllIds == {"a", "b", "c", "d", "e", "o1", "o2", "z"}
 TInit == tid \in 1..Len(Traces) /\ l = 1 /\ prev = [role |-> "F", now |-> 0, others |-> {}] /\ heard = [m \in AllIds |-> 0] /\ heardL = [m \in AllIds |-> 0]
 Maj(cnt, voters) == 2 * cnt > voters
 TNext ==
